@@ -332,7 +332,7 @@ def main():
     add(family='amo_add', nreq=6, lat=2, nports=1, sink_delay=4, stalls=True, variant='rtl', len0=True, stall_budget=1)
     add(family='amo_add', nreq=5, lat=0, nports=1, sink_delay=2, stalls=True, variant='rtl', len0=True, stall_budget=2)
     add(family='w', nreq=4, lat=2, nports=1, sink_delay=3, stalls=True, len0=True, stall_budget=2)
-    add(family='rw', nreq=2, lat=1, nports=2, sink_delay=0, stalls=False, variant='rtl', dws=[32, 64])
+    add(family='rw', nreq=2, lat=1, nports=2, sink_delay=0, stalls=False, variant='rtl', dws=[32, 64], len0=True)
     add(family='amo_arith', nreq=1, lat=0, nports=2, sink_delay=1, stalls=False, variant='rtl', dws=[64, 32])
     add(family='rw', nreq=1, lat=0, nports=2, sink_delay=1, stalls=True, dws=[64, 16])
     add(family='amo_minmax', nreq=1, lat=1, nports=2, sink_delay=0, stalls=False, dws=[16, 64])
@@ -342,7 +342,7 @@ def main():
         add(family=fam, nreq=2, lat=lat, nports=1, sink_delay=3, stalls=False)
       add(family=fam, nreq=1, lat=1, nports=2, sink_delay=1, stalls=False)
     add(family='rw', nreq=3, lat=1, nports=1, sink_delay=1, stalls=False)
-    add(family='rw', nreq=2, lat=1, nports=2, sink_delay=0, stalls=False)
+    add(family='rw', nreq=2, lat=1, nports=2, sink_delay=0, stalls=False, len0=True)      # four requests: full-width only (lengths multiply the paths by 4 per request)
     for fam in MS.FAMILIES:
       add(family=fam, nreq=2, lat=1, nports=1, sink_delay=2, stalls=True, variant='rtl', stall_budget=1)
       add(family=fam, nreq=2, lat=0, nports=1, sink_delay=0, stalls=False, variant='rtl')
